@@ -445,6 +445,8 @@ def creators(facts):
 def state_leaf(x):
     """a leaf of a branch condition that is neither a constant nor derived from the function's own parameters"""
     r = repr(x)
+    if "closure:" in r:
+        return False  # the outcome of a computation driven by a closure (an adaptor chain), not a read of the state
     return ("'self'" in r or "'area'" in r) and "'param'" not in r and x[0] not in ("int", "str", "k")
 
 
